@@ -178,9 +178,10 @@ def isEmergency (bits : Bits) : Res Bool :=
   let subtype ← bin2intR (slice 5 8 mb)
   if subtype = 2 then .rte else do
   let st ← bin2intR (slice 8 11 mb)
-  pure (subtype = 1 ∧ st = 1)
+  pure (subtype = 1 ∧ st ≠ 0)
 
-def emergencyState (bits : Bits) : Res Nat := do
+def emergencyState (bits : Bits) : Res Nat :=
+  if tcB bits ≠ some 28 then .rte else do
   let mb := bits.drop 32
   let subtype ← bin2intR (slice 5 8 mb)
   if subtype = 2 then .rte else bin2intR (slice 8 11 mb)
@@ -234,7 +235,7 @@ def selectedHeading (bits : Bits) : Res (Option Rat) := do
   if status = false then pure none else do
   let sign ← idxR mb 30
   let v ← bin2intR (slice 31 39 mb)
-  pure (some (((b2n sign + 1 : Nat) : Rat) * v * ((180 : Rat) / 256)))
+  pure (some (((b2n sign : Nat) : Rat) * 180 + (v : Rat) * ((180 : Rat) / 256)))
 
 def targetAngle (bits : Bits) : Res (Option Nat × String × String) := do
   let (mb, st) ← tc29 bits
@@ -308,7 +309,7 @@ def nucP (bits : Bits) : Res (Nat × Option Rat × Option Rat × Option Rat) :=
   match tcB bits with
   | none => .rte
   | some tc =>
-    if tc < 5 ∨ tc > 22 then .rte else do
+    if tc < 5 ∨ tc = 19 ∨ tc > 22 then .rte else do
     let nucp ← lookupR Tables.tcNUCp tc
     let (hpl, rcu) := match lookup Tables.tblNUCp nucp with
       | some row => (col row 0, col row 1)
@@ -336,7 +337,7 @@ def nicV1 (bits : Bits) (nics : Nat) : Res (Nat × Option Rat × Option Rat) :=
   match tcB bits with
   | none => .rte
   | some tc =>
-    if tc < 5 ∨ tc > 22 then .rte else do
+    if tc < 5 ∨ tc = 19 ∨ tc > 22 then .rte else do
     let e ← lookupR Tables.tcNICv1 tc
     let nic ← nicOfEntry e nics
     match lookup Tables.tblNICv1 nic with
@@ -350,7 +351,7 @@ def nicV2 (bits : Bits) (nica nicbc : Nat) : Res (Option (Nat × Option Rat)) :=
   match tcB bits with
   | none => .rte
   | some tc =>
-    if tc < 5 ∨ tc > 22 then .rte else do
+    if tc < 5 ∨ tc = 19 ∨ tc > 22 then .rte else do
     let e ← lookupR Tables.tcNICv2 tc
     let nics := if 20 ≤ tc ∧ tc ≤ 22 then 0 else nica * 2 + nicbc
     match nicOfEntry e nics with
